@@ -144,12 +144,37 @@ def closestF32 (mode : PaletteMode) (pal : List (List Nat)) (color : List Nat) :
 def colourOfRgb8 (r g b : Nat) : List Nat :=
   [r, g, b].map fun v => CF32.fclamp (Conv.n8f32 v) 0 CF32.one
 
+/-- `BC1_EPSILON = 1.0 / 255.0 / 2.0` (constant-folded in f32) -/
+def BC1_EPSILON : Nat := 0x3B008081
+
+/-- `f32::max` for non-NaN operands -/
+def fmaxBits (a b : Nat) : Nat := if CF32.flt a b then b else a
+
+/-- `get_single_color(block, alpha_map)`: per channel the minimum and maximum over the OPAQUE pixels (from `INFINITY` /
+`NEG_INFINITY`), `diff = (max - min).abs()`, `if diff.max_element() < BC1_EPSILON { Some((min + max) * 0.5) }` -/
+def getSingleColor (colours : List (List Nat)) (alphaMap : Nat) : Option (List Nat) :=
+  let chan (c : Nat) : Nat × Nat :=
+    (List.range 16).foldl (fun (mm : Nat × Nat) i =>
+      if isOpaque alphaMap i then
+        let v := (colours.getD i []).getD c 0
+        (CF32.fmin mm.1 v, fmaxBits mm.2 v)
+      else mm) (CF32.posInf, CF32.negInf)
+  let mm := (List.range 3).map chan
+  if mm.all (fun m => CF32.flt (fabsBits' (CF32.fsub m.2 m.1)) BC1_EPSILON) then
+    some (mm.map fun m => CF32.fmul (CF32.fadd m.1 m.2) CF32.half)
+  else none
+where fabsBits' (x : Nat) : Nat := x % CF32.signBit
+
 /-- the whole colour block as `compress_with_palette` / `compress_single_color` finish it when colour dithering is off and
-the metric is `Uniform`: endpoints as given (the float search's result), indexes by `block_closest` -/
+the metric is `Uniform`: endpoints as given (the float search's result); a block whose opaque pixels are within
+`BC1_EPSILON` of each other (`get_single_color`) is compressed as sixteen copies of `(min + max) * 0.5`; indexes by
+`block_closest` -/
 def emitColourF32 (mode : PaletteMode) (e0 e1 : C565) (alphaMap : Nat) (colours : List (List Nat)) : Option (List Nat) :=
   let e := createEndpoints mode e0 e1
   let pal := paletteF32 mode e
-  emitColour mode e0 e1 alphaMap fun i => closestF32 mode pal (colours.getD i [])
+  match getSingleColor colours alphaMap with
+  | some c => CF32.force (closestF32 mode pal c) fun k => emitColour mode e0 e1 alphaMap fun _ => k
+  | none => emitColour mode e0 e1 alphaMap fun i => closestF32 mode pal (colours.getD i [])
 
 /-! ## bc4.rs -/
 
